@@ -132,6 +132,13 @@ Definition derive_all (codes : list (byte * list byte)) (compl : list (byte * by
 Definition derive_trans (all : list (byte * byte)) : list (N * N) :=
   map (fun kv => (Byte.to_N (fst kv), Byte.to_N (snd kv))) all.
 
+(* harness entry point for the derivation on any CODES-like table (the real statements of seq.py are executed on the same table) *)
+Definition run_C05_derive (codes : list (byte * str)) (compl : list (byte * byte)) : val :=
+  match derive_all codes compl with
+  | Some d => VL (map (fun kv => VL [VS [fst kv]; VS [snd kv]]) d)
+  | None => VE (bs "KeyError"%bs)
+  end.
+
 (* ---- BioSeq.__init__ (seq.py:221-223): data = str(data).upper(); Latin-1 str.upper / str.lower of CPython ---- *)
 Definition nb (c : byte) : N := Byte.to_N c.
 Definition shift (c : byte) (n : N) : byte := match Byte.of_N n with Some b => b | None => c end.
